@@ -510,6 +510,64 @@ def x12(ctx, rid):
         raise core.AnchorLost('coroutines that launch the observer: %d' % n)
 
 
+def x13(ctx, rid):
+    """a reserved range is always written: in the body that reserves space in a blob file (`size.fetch_add`) every path from the
+    reservation to a return reaches the OS write (directly or through a helper that attempts the write on each of its paths).
+    An exit in between - the awaiting future is gone, a limit is hit - leaves a hole of unwritten bytes as soon as the next record
+    is appended behind it: the running session does not notice, the file no longer parses, and the next start that has to scan it
+    quarantines the blob with every acknowledged record in it"""
+    prog = ctx.prog
+    WRITES = ('write_all_at', 'write_at', 'pwrite', 'write_all', 'write')
+    memo = {}
+
+    def attempts(fid):
+        """blocks of `fid` whose terminator is an attempt to write (an OS write or a call of a function that always attempts)"""
+        f = prog.body_of(fid)
+        ev = []
+        if f is None:
+            return ev
+        for c in f.calls:
+            if c.bb not in f.reachable():
+                continue
+            if c.name in WRITES and c.crate in ('std', 'core', 'nix', 'libc'):
+                ev.append(c.bb)
+                continue
+            tg = [t for t in prog.resolve(c) if t in prog.fns]
+            if tg and all(always(t) for t in tg):
+                ev.append(c.bb)
+        return ev
+
+    def always(fid):
+        if fid in memo:
+            return memo[fid]
+        memo[fid] = False
+        f = prog.body_of(fid)
+        if f is None or f.is_coroutine:
+            return False
+        ev = attempts(fid)
+        reach = f.reach_from([0], avoid_exit=ev)
+        rets = [i for i in reach if f.blocks[i]['t']['k'] == 'return' and i not in ev]
+        memo[fid] = bool(ev) and not rets
+        return memo[fid]
+    n = 0
+    for f in prog.fns.values():
+        if not f.file.startswith('src/io/'):
+            continue
+        for c in f.calls:
+            if c.bb in f.reachable() and c.name == 'fetch_add' and c.path.startswith('std::sync::atomic::Atomic') and prims.receiver_field(f, c) == 'size':
+                n += 1
+                key = 'reserved-range-written|%s' % prog.fns[f.id].root
+                ev = attempts(f.id)
+                reach = f.reach_from(f.after(c.bb), avoid_exit=ev)
+                rets = [i for i in reach if f.blocks[i]['t']['k'] == 'return' and i not in ev]
+                if rets:
+                    ctx.bad(rid, key, c.where(), 'a path from the reservation returns without attempting the write of the reserved range (%s): the next append leaves a hole the start-up scan cannot parse' % f.where(rets[0]))
+                else:
+                    ctx.ok(rid, key, c.where(), 'every path from the reservation reaches one of %d write attempts' % len(ev))
+    if n < 2:
+        raise core.AnchorLost('reservations of file space: %d' % n)
+
+
 RULES = [
     Rule('C14.X1', 'reservation of a file offset and the OS write consuming it lie in non-coroutine bodies run by a blocking runner', x1, 4),
     Rule('C14.X2', 'no suspension point between the completed record append and its index push', x2, 2),
@@ -522,5 +580,6 @@ RULES = [
     Rule('C14.X10', 'no two fields of a value held under one exclusive guard are written on the two sides of a suspension point in a client-cancellable body', x10, 1),
     Rule('C14.X11', 'no shared atomic counter is raised before and lowered after a suspension point by plain statements of a client-cancellable body', x11, 1),
     Rule('C14.X12', 'Storage::init launches the observer only after its last suspension point', x12, 1),
+    Rule('C14.X13', 'every path from a space reservation to a return attempts the write of the reserved range', x13, 2),
     Rule('C14.X4', 'no RAII guard whose Drop undoes a counter reservation is live across a suspension point of a client-cancellable future', x4, 1),
 ]
